@@ -83,6 +83,11 @@ impl Dict {
             "r1" => "example.com".to_string(),
             "r2" => "login.other-site.org".to_string(),
             "r3" => "xn--bcher-kva.example".to_string(),
+            // relying-party ids that are different strings but "near" r1: an exact comparison tells them apart
+            "r1case" => "EXAMPLE.com".to_string(),
+            "r1sub" => "login.example.com".to_string(),
+            "r1dot" => "example.com.".to_string(),
+            "r1sfx" => "ample.com".to_string(),
             other => format!("{other}.example.net"),
         };
         self.rp.push((name.to_string(), s.clone()));
@@ -364,11 +369,79 @@ pub fn make_passkey(d: &mut Dict, rec: &Value, rng: &mut impl RngCore) -> Passke
 // ---------------------------------------------------------------------------------------------
 // the traced store
 
+/// The reference store: the documented contract (match by id list and RP ID, listing in insertion order), with a
+/// configurable discoverability capability.  Not traced itself: `TStore` traces whatever it wraps.
+pub struct RefStore {
+    pub v: Vec<Passkey>,
+    pub disc: &'static str,
+    pub empty_as_err: bool,
+}
+
+#[async_trait]
+impl CredentialStore for RefStore {
+    type PasskeyItem = Passkey;
+
+    async fn find_credentials(&self, ids: Option<&[PublicKeyCredentialDescriptor]>, rp_id: &str) -> Result<Vec<Passkey>, StatusCode> {
+        let r: Vec<Passkey> = self
+            .v
+            .iter()
+            .filter(|p| p.rp_id == rp_id && ids.map(|l| l.iter().any(|d| d.id == p.credential_id)).unwrap_or(true))
+            .cloned()
+            .collect();
+        if r.is_empty() && self.empty_as_err {
+            Err(Ctap2Error::NoCredentials.into())
+        } else {
+            Ok(r)
+        }
+    }
+
+    async fn save_credential(
+        &mut self,
+        cred: Passkey,
+        _user: PublicKeyCredentialUserEntity,
+        _rp: PublicKeyCredentialRpEntity,
+        _options: Options,
+    ) -> Result<(), StatusCode> {
+        self.update_credential(cred).await
+    }
+
+    async fn update_credential(&mut self, cred: Passkey) -> Result<(), StatusCode> {
+        if let Some(slot) = self.v.iter_mut().find(|p| p.credential_id == cred.credential_id) {
+            *slot = cred;
+        } else {
+            self.v.push(cred);
+        }
+        Ok(())
+    }
+
+    async fn get_info(&self) -> StoreInfo {
+        StoreInfo { discoverability: disc_of(self.disc) }
+    }
+}
+
 pub enum Inner {
-    /// the documented contract: match by id list and RP ID, listing in insertion order
-    Reference(Vec<Passkey>),
+    Reference(RefStore),
     Memory(MemoryStore),
     Slot(Option<Passkey>),
+    /// the reference store behind each of the shipped lock wrappers (cfg.wrap): the wrappers are to be transparent
+    MutexRef(tokio::sync::Mutex<RefStore>),
+    RwRef(tokio::sync::RwLock<RefStore>),
+    ArcMutexRef(Arc<tokio::sync::Mutex<RefStore>>),
+    ArcRwRef(Arc<tokio::sync::RwLock<RefStore>>),
+}
+
+macro_rules! with_inner {
+    ($inner:expr, $s:ident => $e:expr) => {
+        match $inner {
+            Inner::Reference($s) => $e,
+            Inner::Memory($s) => $e,
+            Inner::Slot($s) => $e,
+            Inner::MutexRef($s) => $e,
+            Inner::RwRef($s) => $e,
+            Inner::ArcMutexRef($s) => $e,
+            Inner::ArcRwRef($s) => $e,
+        }
+    };
 }
 
 pub struct TStore {
@@ -381,14 +454,18 @@ pub struct TStore {
 impl TStore {
     pub fn contents(&self) -> Vec<Passkey> {
         match &self.inner {
-            Inner::Reference(v) => v.clone(),
+            Inner::Reference(r) => r.v.clone(),
             Inner::Memory(m) => m.values().cloned().collect(),
             Inner::Slot(o) => o.iter().cloned().collect(),
+            Inner::MutexRef(m) => m.try_lock().expect("store lock free between calls").v.clone(),
+            Inner::RwRef(m) => m.try_read().expect("store lock free between calls").v.clone(),
+            Inner::ArcMutexRef(m) => m.try_lock().expect("store lock free between calls").v.clone(),
+            Inner::ArcRwRef(m) => m.try_read().expect("store lock free between calls").v.clone(),
         }
     }
     pub fn snapshot(&self, d: &Dict) -> Value {
         let mut v: Vec<Value> = self.contents().iter().map(|p| cred_json(d, p)).collect();
-        if !matches!(self.inner, Inner::Reference(_)) {
+        if matches!(self.inner, Inner::Memory(_) | Inner::Slot(_)) {
             v.sort_by(|a, b| a["id"].as_str().cmp(&b["id"].as_str()));
         }
         Value::Array(v)
@@ -435,22 +512,7 @@ impl CredentialStore for TStore {
         let res: Result<Vec<Passkey>, StatusCode> = if let Some(b) = fault {
             Err(StatusCode::from(b))
         } else {
-            match &self.inner {
-                Inner::Reference(v) => {
-                    let r: Vec<Passkey> = v
-                        .iter()
-                        .filter(|p| p.rp_id == rp_id && ids.map(|l| l.iter().any(|d| d.id == p.credential_id)).unwrap_or(true))
-                        .cloned()
-                        .collect();
-                    if r.is_empty() && self.empty_as_err {
-                        Err(Ctap2Error::NoCredentials.into())
-                    } else {
-                        Ok(r)
-                    }
-                }
-                Inner::Memory(m) => m.find_credentials(ids, rp_id).await,
-                Inner::Slot(o) => o.find_credentials(ids, rp_id).await,
-            }
+            with_inner!(&self.inner, st => st.find_credentials(ids, rp_id).await)
         };
         let (res, err) = split(res);
         {
@@ -484,18 +546,7 @@ impl CredentialStore for TStore {
         let res: Result<(), StatusCode> = if let Some(b) = fault {
             Err(StatusCode::from(b))
         } else {
-            match &mut self.inner {
-                Inner::Reference(v) => {
-                    if let Some(slot) = v.iter_mut().find(|p| p.credential_id == cred.credential_id) {
-                        *slot = cred.clone();
-                    } else {
-                        v.push(cred.clone());
-                    }
-                    Ok(())
-                }
-                Inner::Memory(m) => m.save_credential(cred.clone(), _user, rp, _options).await,
-                Inner::Slot(o) => o.save_credential(cred.clone(), _user, rp, _options).await,
-            }
+            with_inner!(&mut self.inner, st => st.save_credential(cred.clone(), _user, rp, _options).await)
         };
         let (res, err) = split(res);
         {
@@ -517,18 +568,7 @@ impl CredentialStore for TStore {
         let res: Result<(), StatusCode> = if let Some(b) = fault {
             Err(StatusCode::from(b))
         } else {
-            match &mut self.inner {
-                Inner::Reference(v) => {
-                    if let Some(slot) = v.iter_mut().find(|p| p.credential_id == cred.credential_id) {
-                        *slot = cred.clone();
-                    } else {
-                        v.push(cred.clone());
-                    }
-                    Ok(())
-                }
-                Inner::Memory(m) => m.update_credential(cred.clone()).await,
-                Inner::Slot(o) => o.update_credential(cred.clone()).await,
-            }
+            with_inner!(&mut self.inner, st => st.update_credential(cred.clone()).await)
         };
         let (res, err) = split(res);
         {
@@ -553,11 +593,7 @@ impl CredentialStore for TStore {
                              "ok": true, "err": 0, "found": [], "snap": snap, "faulted": false, "opts": no_opts()}));
         }
         gate_out(&self.sh).await;
-        match &self.inner {
-            Inner::Reference(_) => StoreInfo { discoverability: disc_of(self.disc) },
-            Inner::Memory(m) => m.get_info().await,
-            Inner::Slot(o) => o.get_info().await,
-        }
+        with_inner!(&self.inner, st => st.get_info().await)
     }
 }
 
@@ -631,19 +667,30 @@ pub fn uv_cap_of(name: &str) -> Option<bool> {
 }
 
 pub fn new_store(kind: &str, disc: &str, empty_as_err: bool, creds: Vec<Passkey>, sh: &Sh) -> TStore {
+    new_store_wrapped(kind, "none", disc, empty_as_err, creds, sh)
+}
+
+/// `wrap`: which shipped lock wrapper stands between the traced store and the reference store
+/// ("none" | "mutex" | "rwlock" | "arcmutex" | "arcrwlock"; the shipped map and slot stores are used bare)
+pub fn new_store_wrapped(kind: &str, wrap: &str, disc: &str, empty_as_err: bool, creds: Vec<Passkey>, sh: &Sh) -> TStore {
+    let disc: &'static str = match disc {
+        "full" => "full",
+        "nondisc" => "nondisc",
+        _ => "forced",
+    };
     let inner = match kind {
         "memory" => Inner::Memory(creds.into_iter().map(|p| (p.credential_id.clone().into(), p)).collect::<HashMap<Vec<u8>, Passkey>>()),
         "slot" => Inner::Slot(creds.into_iter().next()),
-        _ => Inner::Reference(creds),
+        _ => {
+            let r = RefStore { v: creds, disc, empty_as_err };
+            match wrap {
+                "mutex" => Inner::MutexRef(tokio::sync::Mutex::new(r)),
+                "rwlock" => Inner::RwRef(tokio::sync::RwLock::new(r)),
+                "arcmutex" => Inner::ArcMutexRef(Arc::new(tokio::sync::Mutex::new(r))),
+                "arcrwlock" => Inner::ArcRwRef(Arc::new(tokio::sync::RwLock::new(r))),
+                _ => Inner::Reference(r),
+            }
+        }
     };
-    TStore {
-        inner,
-        disc: match disc {
-            "full" => "full",
-            "nondisc" => "nondisc",
-            _ => "forced",
-        },
-        empty_as_err,
-        sh: sh.clone(),
-    }
+    TStore { inner, disc, empty_as_err, sh: sh.clone() }
 }
